@@ -19,6 +19,7 @@ FinalChain(p) == [k \in 1..(MaxBlock - LowestInit(p) + 1) |-> Blk(LowestInit(p) 
 \* reference results for block n (ref is RunChain over the final chain from the lowest initial block)
 Res(n) == ref[n - LowestInit(prog) + 1]
 OutMod == prog[Len(prog)]
+OutOf(r) == IF "outmod" \in DOMAIN r.cfg /\ r.cfg.outmod # "" THEN ModByName(prog, r.cfg.outmod) ELSE OutMod
 StoreInits(p) == LET s == SelectSeq(p, LAMBDA m : m.kind = "store") IN [i \in DOMAIN s |-> s[i].init]
 
 Datas(o) == SelectSeq(o.resp, LAMBDA x : x.kind = "data")
@@ -28,7 +29,7 @@ Datas(o) == SelectSeq(o.resp, LAMBDA x : x.kind = "data")
 Has(fs, mod, kind, a, b) == \E i \in DOMAIN fs : ~fs[i].tmp /\ fs[i].mod = mod /\ fs[i].kind = kind /\ fs[i].start = a /\ fs[i].end = b
 OutputCachedButStoreSnapshotMissing(r) ==
   LET fs == r.filesBefore IN
-  \E i \in DOMAIN fs : ~fs[i].tmp /\ fs[i].mod = OutMod.name /\ fs[i].kind = "output" /\
+  \E i \in DOMAIN fs : ~fs[i].tmp /\ fs[i].mod = OutOf(r).name /\ fs[i].kind = "output" /\
      \E j \in DOMAIN prog : prog[j].kind = "store" /\ prog[j].init < fs[i].end /\
         ~Has(fs, prog[j].name, "kv", prog[j].init, fs[i].end) /\
         ~Has(fs, prog[j].name, "partial", Max(prog[j].init, fs[i].start - (fs[i].start % r.cfg.seg)), fs[i].end)
@@ -68,7 +69,7 @@ DepsOf(name) ==
            \cup (IF m.filter = <<>> THEN {} ELSE {m.filter[1]}) IN
   d \cup UNION {DepsOf(x) : x \in d}
 FailExpected(r) ==
-  /\ "m_src" \in DepsOf(OutMod.name)
+  /\ "m_src" \in DepsOf(OutOf(r).name)
   /\ r.failAt <= MaxBlock /\ r.failAt >= LowestInit(prog)
   /\ Res(r.failAt).outs["m_src"].ran
 
@@ -89,16 +90,16 @@ RunFails(r, from) ==
   \o F(\A i \in DOMAIN ds : ds[i].num < r.failAt, "block_delivered_at_or_after_the_failing_block")
   \o F(\A i \in DOMAIN ds : ds[i].num >= S2 /\ ds[i].num < E, "block_outside_requested_range")
   \o F(\A i \in 1..(Len(ds) - 1) : ds[i].num < ds[i + 1].num, "not_strictly_increasing")
-  \o F(\A i \in DOMAIN ds : ds[i].num <= MaxBlock => ds[i].payload = PayloadOf(Res(ds[i].num), OutMod.name), "payload_differs_from_sequential_execution")
+  \o F(\A i \in DOMAIN ds : ds[i].num <= MaxBlock => ds[i].payload = PayloadOf(Res(ds[i].num), OutOf(r).name), "payload_differs_from_sequential_execution")
   ELSE
      F(o.err = "", FailSig(r))
   \o F(\A i \in DOMAIN ds : ds[i].num >= S2 /\ ds[i].num < E, "block_outside_requested_range")
   \o F(\A i \in 1..(Len(ds) - 1) : ds[i].num < ds[i + 1].num, "not_strictly_increasing")
   \o F(\A i \in DOMAIN ds : ds[i].curnum = ds[i].num /\ ds[i].curid = ds[i].id, "cursor_designates_other_block")
   \o F(\A i \in DOMAIN ds : ds[i].id = Blk(ds[i].num).id, "block_id")
-  \o F(\A i \in DOMAIN ds : ds[i].num <= MaxBlock => ds[i].payload = PayloadOf(Res(ds[i].num), OutMod.name), "payload_differs_from_sequential_execution")
+  \o F(\A i \in DOMAIN ds : ds[i].num <= MaxBlock => ds[i].payload = PayloadOf(Res(ds[i].num), OutOf(r).name), "payload_differs_from_sequential_execution")
      \* blocks may be missing only below the hand-off (production back-fill) and only when their output is empty
-  \o F(o.err # "" \/ \A n \in S2..(E - 1) : n \in nums \/ (c.prod /\ n < H /\ n <= MaxBlock /\ PayloadOf(Res(n), OutMod.name) = <<>>),
+  \o F(o.err # "" \/ \A n \in S2..(E - 1) : n \in nums \/ (c.prod /\ n < H /\ n <= MaxBlock /\ PayloadOf(Res(n), OutOf(r).name) = <<>>),
        "block_missing")
   \o F(o.err # "" \/ ~o.hasmap \/ E > MaxBlock \/
        \A sname \in DOMAIN o.stores : LET pol == ModByName(prog, sname).body.pol IN
@@ -122,7 +123,7 @@ PropsOf(sig, r) ==
      <<"C01">>
   \o (IF sig \in ShapeSigs \/ Prefix(r.cfg.label, "resume") THEN <<"C04">> ELSE <<>>)
   \o (IF Prefix(r.cfg.label, "subsets") THEN <<"C07">> ELSE <<>>)
-  \o (IF OutMod.filter # <<>> THEN <<"C15">> ELSE <<>>)
+  \o (IF OutOf(r).filter # <<>> THEN <<"C15">> ELSE <<>>)
   \o (IF Prefix(r.cfg.label, "faults") THEN <<"C16">> ELSE <<>>)
 RECURSIVE TagAll(_, _)
 TagAll(sigs, r) ==
@@ -214,7 +215,7 @@ ParseFrom(cur) == \* "resume:<num>"
 \* what the oracle expects for the run's range (written next to a failing record to ease diagnosis)
 Debug(r) ==
   IF "VERIF_DEBUG" \notin DOMAIN IOEnv THEN <<>>
-  ELSE [exp |-> [n \in r.cfg.start..Min(r.cfg.stop - 1, MaxBlock) |-> <<n, PayloadOf(Res(n), OutMod.name), Res(n).outs>>],
+  ELSE [exp |-> [n \in r.cfg.start..Min(r.cfg.stop - 1, MaxBlock) |-> <<n, PayloadOf(Res(n), OutOf(r).name), Res(n).outs>>],
         kv |-> IF r.cfg.stop - 1 <= MaxBlock THEN Res(r.cfg.stop - 1).kv ELSE <<>>,
         H |-> Handoff(r.cfg.prod, r.cfg.start, r.cfg.stop, r.cfg.libok, r.cfg.lib, StateRequiredAt(StoreInits(prog), r.cfg.start), r.cfg.seg)]
 
@@ -226,6 +227,7 @@ Next ==
         /\ prog' = r.prog /\ seg' = r.seg /\ ref' = RunChain(r.prog, FinalChain(r.prog))
         /\ orig' = <<>>
         /\ UNCHANGED <<bad, drift>>
+     ELSE IF r.ev \in {"sinit", "supd", "send"} THEN UNCHANGED <<bad, drift, prog, seg, ref, orig>>     \* scheduler trace: TraceSched
      ELSE IF r.ev = "forkrun" THEN
         LET f == TagFork(ForkFails(r)) IN
         /\ bad' = IF f = <<>> THEN bad ELSE Append(bad, [i |-> l, why |-> f, dbg |-> <<>>])
